@@ -7,6 +7,7 @@ import NodisVerif.Model.Handler4
 import NodisVerif.Driver.GeoOps
 import NodisVerif.Driver.FragOps
 import NodisVerif.Driver.ProtoOps
+import NodisVerif.Driver.GateProgOps
 import NodisVerif.Driver.LinkedListOps
 import NodisVerif.Driver.SlOps
 import NodisVerif.Driver.RespWriterOps
@@ -22,6 +23,7 @@ structure DState where
   proto : Proto.PState := {}
   block : Block.BState := []
   gate : Gate.GState := {}
+  gprog : Driver.GPR := {}                       -- replay of the gate trace against the program model (Model/GateProg.lean)
   feeds : List (String × List FeedOp) := []      -- per watched instance: records not yet drained (oldest first)
   patterns : List Bytes := []                    -- patterns of the second (filtered) watcher
   ll : LinkedList.PList := {}                    -- the bare pointer-level list of the `ll` lines (C02)
@@ -67,8 +69,17 @@ def step (d : DState) (line : String) : DState × String :=
   | "geo" :: rest => (d, Driver.geoOp rest)
   | "pev" :: rest => let (p, out) := Driver.protoOp d.proto rest; ({ d with proto := p }, out)
   | "bev" :: rest => let (b, out) := Driver.blockOp d.block rest; ({ d with block := b }, out)
-  | "gev" :: rest => let (g, out) := Driver.gateOp d.gate rest; ({ d with gate := g }, out)
-  | ["pend"] => ({ d with proto := {}, gate := {} }, Driver.protoEnd d.proto)
+  | "gev" :: rest =>
+    let (g, out) := Driver.gateOp d.gate rest
+    if out != "ok" then ({ d with gate := g }, out) else
+    (match Driver.parseGev rest with
+     | some e =>
+       -- the protocol accepts the step; is it also a step of the program (Model/GateProg.lean)?
+       let (r, ok) := Driver.gprogEv d.gprog d.gate e
+       ({ d with gate := g, gprog := r }, if ok then "ok" else "rejected-prog")
+     | none => ({ d with gate := g }, out))
+  | "gpc" :: rest => let (r, out) := Driver.gprogObs d.gprog d.gate rest; ({ d with gprog := r }, out)
+  | ["pend"] => ({ d with proto := {}, gate := {}, gprog := {} }, Driver.protoEnd d.proto)
   | "open" :: id :: backend :: _ =>
     ({ d with cur := id }.putSv { store := { pebble := backend == "pebble" } }, "ok")
   | ["inst", id] => ({ d with cur := id }, "ok")
